@@ -21,7 +21,15 @@ Definition roots_same (a b : list bytes) : bool :=
        segs = ((tdiscard|tfinalize (cid data) ...) ...)   last = ((cid data) ...)
        -> (tok file_interrupted file_plain) | (treopen-failed file_plain) | (topenerr)
    (tmismatch kind opts roots puts cut opts2 roots2 hdrtab)
-       -> (taccepted changed) | (trejected changed) | (topenerr)              *)
+       -> (taccepted changed) | (trejected errclass refusal changed) | (topenerr)              *)
+Definition refusal_name (r : option refusal) : string :=
+  match r with
+  | Some (RFirstHeader _) => "first-header" | Some RVersion => "version"
+  | Some RNoTruncate => "no-truncate" | Some RDataOffset => "data-offset"
+  | Some (RDataHeader _) => "data-header" | Some RMismatch => "mismatch"
+  | None => "later"      (* no check refuses: an error of the un-finalize writes or of the scan *)
+  end.
+
 Definition run_resume (input : val) : val :=
   let kn := vN (vnth 1 input) in
   let k := v_kind kn in
@@ -47,7 +55,13 @@ Definition run_resume (input : val) : val :=
       let o2 := v_wopts (vnth 6 input) in
       match reopen hdrdec k o2 (is_nil_tag (vnth 7 input)) (vcids (vnth 7 input)) file with
       | inl s2 => VL [VT "accepted"; v_of_bool (negb (bytes_eqb file (ws_file s2)))]
-      | inr (e, dv) => VL [VT "rejected"; v_of_bool (negb (bytes_eqb file (d_file dv)))]
+      | inr (e, dv) =>
+        VL [VT "rejected"; v_err e;
+            VT (match k, file with
+                | KBlockstore, [] => "open-new"
+                | _, _ => refusal_name (reopen_refusal hdrdec o2 (vcids (vnth 7 input)) file)
+                end);
+            v_of_bool (negb (bytes_eqb file (d_file dv)))]
       end
   end.
 
@@ -75,7 +89,21 @@ Definition prop_resume (input obs : val) : val :=
     let vdiff := negb (Bool.eqb (w_v1 o) (w_v1 o2)) in
     let rdiff := negb (roots_same roots roots2) in
     let pdiff := negb (w_v1 o) && negb (w_v1 o2) && negb (w_dpad o =? w_dpad o2) in
+    let hlen0 := blen (enc_header (roots_opt (is_nil_tag (vnth 3 input)) roots) 1) in
     if vtag (vnth 0 obs) "openerr" then VT "ok"
+    else if (w_maxh o2 <? hlen0) && negb vdiff && negb pdiff then
+      (* the header in the file is above the reopening caller's MaxAllowedHeaderSize: outside the
+         hypotheses of (1), (3)-(5); C12_oversized_header_refused: refused, not as a root mismatch,
+         untouched; version and padding match, so the refusal is the header read itself *)
+      (if vtag (vnth 0 obs) "accepted" then fail "oversized-header-accepted" "other"
+       else if vbool (vnth 3 obs) then fail "rejected-but-file-modified" "other"
+       else if vtag (vnth 2 obs) "mismatch" then fail "wrong-refusal" "oversized-header"
+       else if negb (vtag (vnth 1 obs) "hdr2big" &&
+                        vtag (vnth 2 obs) (if w_v1 o2 then "first-header" else "data-header"))
+               (* CARv1: the file starts with the oversized header, ResumableVersion's ReadVersion
+                  meets it first; CARv2: the first header is the 11-byte pragma *)
+       then fail "wrong-refusal" "oversized-header"
+       else VT "ok")
     else if negb (vdiff || rdiff || pdiff) then
       (* the same roots (order ignored), version and padding: the reopen must go through *)
       (if vtag (vnth 0 obs) "rejected" then fail "same-roots-rejected" "other" else VT "ok")
@@ -89,8 +117,16 @@ Definition prop_resume (input obs : val) : val :=
         then fail "mismatch-accepted" "unfinalized-padding-adversarial-data"
         else fail "mismatch-accepted" "other"
       end
-    else if vbool (vnth 1 obs) then fail "rejected-but-file-modified" "other"
-    else VT "ok".
+    else if vbool (vnth 3 obs) then fail "rejected-but-file-modified" "other"
+    else
+      (* which refusal (C12_reject_version / C12_reject_roots): the version check comes first, a
+         root mismatch alone is the "mismatching data header" refusal *)
+      let hlen := blen (enc_header (roots_opt (is_nil_tag (vnth 3 input)) roots) 1) in
+      let same_limit := (w_maxh o =? w_maxh o2) && (hlen <=? w_maxh o) in
+      if same_limit && vdiff && negb (vtag (vnth 2 obs) "version") then fail "wrong-refusal" "version"
+      else if same_limit && rdiff && negb vdiff && negb pdiff && negb (vtag (vnth 2 obs) "mismatch")
+      then fail "wrong-refusal" "roots"
+      else VT "ok".
 
 (* ---- kind "crash" (C06) ------------------------------------------------------------------------
    session = (kind opts roots pre puts fin)      pre as in kind "resume", fin = n0|n1
@@ -204,9 +240,12 @@ Definition prop_crash (input obs : val) : val :=
       let get_is (v : val) (d : bytes) := match vnth 1 v with VB g => bytes_eqb g d | _ => false end in
       let lookup (b : bytes * bytes) : val :=
         match find (fun pr => block_eqb b (fst pr)) pairs with Some pr => snd pr | None => VL [] end in
+      (* a section above MaxAllowedSectionSize can be put but Get refuses to read it back: outside
+         C06_crash_safe_guarded's hypothesis on what is put (as in C04); only Has is required *)
+      let over (b : bytes * bytes) := w_maxs o <? blen (fst b) + blen (snd b) in
       if negb (forallb (fun b => has_of (lookup b)) acked) then fail "acked-block-missing" cl
-      else if negb (forallb (fun b => get_is (lookup b) (snd b)) acked) then fail "acked-block-corrupt" cl
-      else if negb (forallb (fun pr => negb (has_of (snd pr)) || get_is (snd pr) (snd (fst pr))) pairs)
+      else if negb (forallb (fun b => over b || get_is (lookup b) (snd b)) acked) then fail "acked-block-corrupt" cl
+      else if negb (forallb (fun pr => negb (has_of (snd pr)) || over (fst pr) || get_is (snd pr) (snd (fst pr))) pairs)
       then fail "stored-block-corrupt" cl
       else if (match vnth 2 out with
                | VL ks => negb (forallb (fun kc =>
